@@ -28,7 +28,7 @@ class _Sem:
         except RuntimeError:
             pass
 
-QUANTA = [1, 1, 2, 3, 5, 8, 20, 50, 200, 10 ** 9]
+QUANTA = [1, 1, 2, 3, 5, 8, 13, 20, 50, 200, 1000, 10 ** 9]
 POLICIES = ["random", "random", "roundrobin", "starve", "serial_perm", "pct"]
 STEP_CAP = 20_000_000
 
